@@ -99,6 +99,28 @@ def oob_scenario(viol, stats):
         pr.destroy()
 
 
+def three_party_scenario(viol, stats):
+    """P1 (`redo -j2 a b`) has the job for `a` in flight when it meets `b`, which P2 (`redo b`, started first) is
+    building; while P1 handles the locked `b` (logs, queues, waits), P3 (`redo-ifchange a`) asks for `a`.  P1 must
+    still hold the lock of `a`: P3 waits, and `a` runs once."""
+    pr = Project()
+    try:
+        pr.write("a.do", 'echo "B $$ a $(date +%s%N)" >>"$VERIF_WORK"; sleep 1.4; echo "E $$ a $(date +%s%N)" >>"$VERIF_WORK"; echo a\n')
+        pr.write("b.do", 'echo "B $$ b $(date +%s%N)" >>"$VERIF_WORK"; sleep 1.4; echo "E $$ b $(date +%s%N)" >>"$VERIF_WORK"; echo b\n')
+        rs = sched.run_cmds(pr, [["redo", "b"], ["redo", "-j2", "a", "b"], ["redo-ifchange", "a"]], timeout=40, stagger=0.35)
+        stats["runs"] += 1
+        ans, ev = sched.replay_locks(rs[0].trace)
+        sched.runloop_check("C06", "three-party", rs[0].trace, viol, stats)
+        over, counts = sched.target_overlaps(rs[0].work)
+        bad = any(r.rc != 0 or r.timed_out for r in rs) or over or not ans.startswith("ok") or counts.get("a", 0) != 1
+        if bad and not viol:
+            p = write_replay("C06", "three-party", dict(kind="trace-rejected+impl-monitor", answer=ans, events=ev, overlaps=over, counts=counts, rcs=[r.rc for r in rs], stderr=[r.err[-600:] for r in rs],
+                                                        scenario="a.do, b.do: sleep 1.4.  `redo b`; 0.35 s later `redo -j2 a b`; 0.35 s later `redo-ifchange a`"))
+            viol.append(Violation("C06", p, "a job in flight while its process handles a target locked by another process, and a third process asks for the job's target: model: %s; overlapping executions: %r; executions: %r; statuses %r" % (ans[:160], over, counts, [r.rc for r in rs])))
+    finally:
+        pr.destroy()
+
+
 def two_spellings_scenario(viol, stats):
     """One target asked for by two invocations through two spellings (a symlinked directory and the real one; `..`
     after a symlink): the lock is the database row's id, so both must queue on one lock — one execution at a time."""
@@ -205,6 +227,8 @@ def run(ctx):
         failfast_scenario(viol, stats)
     if not viol:
         oob_scenario(viol, stats)
+    if not viol:
+        three_party_scenario(viol, stats)
     return dict(evaluations=stats["events"], distinct_nontrivial=stats["runs"],
                 rule="seeded random graphs (3-9 targets; failing, checksummed, always targets) built by 1-3 simultaneously started invocations (redo -j1..3 [-k], redo-ifchange of the whole graph or one target) with start offsets 0-150 ms; every lock/job event replayed by the Lean acceptor; scripts record their own begin/end for the overlap monitor; plus the error-while-jobs-run scenario and the failing-sibling-while-a-job-runs scenario (second invocation asks for the running target), the out-of-band (redo-unlocked) rebuild beside a second invocation, and a second round on every project with checksummed nodes; distinct = runs",
                 samples=samples, traces_validated_against_impl=stats["runs"], disagreements_checked=stats["events"], distribution=stats, known_hit=known_hit)
